@@ -105,6 +105,7 @@ type Report struct {
 	GoStmts        int            `json:"go_stmts"`
 	ChanOps        int            `json:"channel_ops_rewritten"`
 	Unmodelled     []string       `json:"unmodelled"`
+	AddrSites      []string       `json:"address_dependent_sites"` // heap addresses turned into numbers (unsafe.StringData, uintptr(unsafe.Pointer(..)), reflect headers)
 	Refusals       []string       `json:"refusals"`
 	Knobs          []Knob         `json:"knobs"`
 	HashFuncs      []HashFunc     `json:"narrow_hash_funcs"`
@@ -627,6 +628,21 @@ func instrumentFile(fset *token.FileSet, fc *fileCtx, rep *Report, info *types.I
 				fc.insert(fc.off(fset, x.End()), ")")
 			}
 		case *ast.CallExpr:
+			// uintptr(unsafe.Pointer(..)): a heap or stack address becomes a number
+			if id, ok := x.Fun.(*ast.Ident); ok && id.Obj == nil && id.Name == "uintptr" && len(x.Args) == 1 {
+				if c2, ok := x.Args[0].(*ast.CallExpr); ok {
+					if sel, ok := c2.Fun.(*ast.SelectorExpr); ok && isPkgIdent(sel.X, "unsafe") && sel.Sel.Name == "Pointer" {
+						p := fset.Position(x.Pos())
+						rep.AddrSites = append(rep.AddrSites, fmt.Sprintf("%s:%d: uintptr(unsafe.Pointer(..))", fc.rel, p.Line))
+					}
+				}
+			}
+			if sel, ok := x.Fun.(*ast.SelectorExpr); ok && len(x.Args) == 0 && (sel.Sel.Name == "UnsafeAddr" || sel.Sel.Name == "UnsafePointer" || sel.Sel.Name == "Pointer") {
+				if _, isIdent := sel.X.(*ast.Ident); !isIdent || !isPkgIdent(sel.X, "unsafe") {
+					p := fset.Position(x.Pos())
+					rep.AddrSites = append(rep.AddrSites, fmt.Sprintf("%s:%d: .%s()", fc.rel, p.Line, sel.Sel.Name))
+				}
+			}
 			if id, ok := x.Fun.(*ast.Ident); ok && id.Obj == nil && id.Name == "make" && len(x.Args) >= 1 {
 				isChan := false
 				if _, ok := x.Args[0].(*ast.ChanType); ok {
@@ -690,6 +706,11 @@ func instrumentFile(fset *token.FileSet, fc *fileCtx, rep *Report, info *types.I
 					p := fset.Position(x.Pos())
 					rep.Unmodelled = append(rep.Unmodelled, fmt.Sprintf("%s:%d: runtime.%s", fc.rel, p.Line, x.Sel.Name))
 				}
+			}
+			if isPkgIdent(x.X, "unsafe") && (x.Sel.Name == "StringData" || x.Sel.Name == "SliceData") ||
+				isPkgIdent(x.X, "reflect") && (x.Sel.Name == "StringHeader" || x.Sel.Name == "SliceHeader") {
+				p := fset.Position(x.Pos())
+				rep.AddrSites = append(rep.AddrSites, fmt.Sprintf("%s:%d: %s.%s", fc.rel, p.Line, x.X.(*ast.Ident).Name, x.Sel.Name))
 			}
 			if isPkgIdent(x.X, "runtime/debug") {
 				switch x.Sel.Name {
